@@ -29,7 +29,7 @@ SWITCH = {
 }
 ALL_SWITCHES = ["removalOverwrite", "staleRemovalOnDespawn", "noLostDespawnHidden", "whiteReAddForgetsLost",
                 "ackOnReceipt", "periodicAckSwallow", "periodicBumpSwallow", "ackDiscarded", "lateJoinerMissesEmpty", "staleBuffersOnRestart",
-                "emptyMutateWithGraphs", "refBeforeSpawnUnmarked", "seedLeakHidden", "seedEvNoQueue", "seedEvNoExclude",
+                "emptyMutateWithGraphs", "refBeforeSpawnUnmarked", "seedLeakHidden", "seedIgnoreMapping", "seedEvNoQueue", "seedEvNoExclude",
                 "seedEvUnauth"]
 
 # monitors (VIOL tags of CoreTrace) -> properties
@@ -130,13 +130,13 @@ def tla_set(xs):
 
 def mc_consts(ents=("e1",), clients=("c1",), policy="all", track=False, impl="ImplAsDesigned", ops=3, ticks=3,
               idle=1, cframes=3, comps=("A", "B"), kinds=("spawn", "insert", "mutate", "remove"), settle=3,
-              emit=False, graphs=0, recon=0):
+              emit=False, graphs=0, recon=0, pre=()):
     return {
         "Ent": tla_set(ents), "Client": tla_set(clients), "Policy": f'"{policy}"',
         "Track": "TRUE" if track else "FALSE", "Timeout": "1000", "Impl": impl,
         "MaxOps": ops, "MaxTicks": ticks, "MaxIdle": idle, "MaxCliFrames": cframes,
         "OpComps": tla_set(comps), "OpKinds": tla_set(kinds), "SettleRounds": settle,
-        "Emit": "TRUE" if emit else "FALSE", "Graphs": graphs, "MaxRecon": recon,
+        "Emit": "TRUE" if emit else "FALSE", "Graphs": graphs, "MaxRecon": recon, "Pre": tla_set(pre),
     }
 
 
